@@ -37,6 +37,7 @@ func runStreamJob(job *Job, res *Result) {
 	mixed := job.Args["mixed"] == "1" // the producer also has an ordinary (non-streaming) output
 	stale := job.Args["stale"] == "1" // a regular file already sits at the streaming output's path (history: the port used to be {o:..})
 	staleFifo := job.Args["stalefifo"] == "1" // a REGULAR file sits at <path>.fifo before the run
+	absOut := job.Args["absout"] == "1" // the streaming output is declared with an ABSOLUTE path in a not-yet-existing directory
 	leftFifo := job.Args["leftover_fifo"] == "1" // a named pipe left by a killed run sits at <path>.fifo
 	spy := job.Args["spy"] == "1"     // a pass-through process between producer and consumer notes the order of the streamed IPs
 	res.Scenario = fmt.Sprintf("stream/n=%d/payload=%d/max=%d", n, size, maxT)
@@ -57,6 +58,13 @@ func runStreamJob(job *Job, res *Result) {
 	}
 	if leftFifo {
 		res.Scenario += "/leftover-fifo"
+	}
+	if absOut {
+		res.Scenario += "/absolute-stream-path"
+	}
+	op := "" // where the streamed file / the consumer's copy live, relative to the working directory
+	if absOut {
+		op = "abs/new/"
 	}
 	dir := filepath.Join(job.Base, "e")
 	vs.EventsDependent = false
@@ -100,6 +108,9 @@ func runStreamJob(job *Job, res *Result) {
 		}
 		prod := wf.NewProc("prod", prodCmd)
 		prod.SetOut("out", "{i:in}.stream")
+		if absOut {
+			prod.SetOut("out", dir+"/abs/new/{i:in|basename}.stream")
+		}
 		if mixed {
 			prod.SetOut("log", "{i:in}.log")
 		}
@@ -219,14 +230,14 @@ func runStreamJob(job *Job, res *Result) {
 		}
 		for i := 0; i < n; i++ {
 			in := fmt.Sprintf("in%d.txt", i)
-			cp := in + ".stream.copy"
+			cp := op + in + ".stream.copy"
 			got, ok := tree[cp]
 			if !ok {
 				add("missing-output", "consumer output "+cp+" does not exist", "")
 			} else if got != payload(i) {
 				add("wrong-bytes", fmt.Sprintf("consumer output %s holds %d bytes, the producer wrote %d (first difference at %d)", cp, len(got), size, firstDiff(got, payload(i))), "")
 			}
-			if c, ok := tree[in+".stream"]; ok && stale {
+			if c, ok := tree[op+in+".stream"]; ok && stale {
 				if c != "STALE" {
 					add("stale-file-modified", fmt.Sprintf("the file that was at the streaming path %s.stream before the run now holds %d bytes", in, len(c)), "")
 				}
@@ -237,7 +248,7 @@ func runStreamJob(job *Job, res *Result) {
 				var rec auditRec
 				if err := json.Unmarshal([]byte(a), &rec); err != nil {
 					add("audit-invalid", cp+".audit.json is not valid JSON", "")
-				} else if up := rec.Upstream[in+".stream"]; up == nil {
+				} else if up := rec.Upstream[map[bool]string{false: in + ".stream", true: dir + "/abs/new/" + in + ".stream"}[absOut]]; up == nil {
 					add("audit-upstream", "the consumer's audit record does not name "+in+".stream as upstream", "")
 				} else if !rerun && up.ProcessName != "prod" {
 					add("audit-upstream", fmt.Sprintf("upstream record of %s.stream names process %q, expected the producer", in, up.ProcessName), "")
